@@ -66,8 +66,16 @@ fn nest(kinds: &[usize], leaf: &str) -> String {
     s
 }
 
+/// set by run() for the thorough tier: more limit values between the ones every run explores
+static DEEP: std::sync::atomic::AtomicBool = std::sync::atomic::AtomicBool::new(false);
+
 fn limits(tier: Tier) -> Vec<u32> {
-    tier.pick(vec![1, 2, 3, 5, 10], vec![1, 2, 3, 5, 10, 100])
+    let mut v = tier.pick(vec![1, 2, 3, 5, 10], vec![1, 2, 3, 5, 10, 100]);
+    if DEEP.load(std::sync::atomic::Ordering::Relaxed) {
+        v.extend([4, 7, 16, 33]);
+        v.sort();
+    }
+    v
 }
 
 fn params(l: u32) -> Vec<u32> {
@@ -588,11 +596,11 @@ fn check(c: &Case) -> CaseResult {
 pub fn run(tier: Tier) -> i32 {
     let mut rep = Report::new("C17", tier, "model_checking");
     // the quick tier explores what used to be the thorough space (it takes seconds); `deep` adds the wider bounds
-    #[allow(unused_variables)]
     let deep = tier == Tier::Thorough;
+    DEEP.store(deep, std::sync::atomic::Ordering::Relaxed);
     let tier = Tier::Thorough;
     let cases = gen_cases(tier);
-    rep.set("rule", json!("Parametric boundary exploration: limit kinds {depth, loop, var} x L in {1,2,3,5,10 (,100)} set through the API and through <config> x parameter in {L-1, L, L+1, 2L, 2L+3} x every construct that consumes the limit (11 nesting elements uniform and in alternating pairs, reuse chains, recursive reuse; count/while/until/for loops, nested and retried loops; literal, copied and self-doubling variables) plus the flat-length dimension (m siblings of 20 element kinds, m up to 20L / 250 at the default limit, at three wrapping levels). State = (document, configuration); transition = one execution of the real transform with the depth probe. Two-sided verdict: Err <=> parameter > L, Ok => exact count of rendered marker elements (no truncation), depth counter back to 0. Non-trivial = parameter within 1 of the boundary or a flat-length case."));
+    rep.set("rule", json!("Parametric boundary exploration: limit kinds {depth, loop, var} x L in {1,2,3,5,10,100} (thorough tier: also 4,7,16,33) set through the API and through <config> x parameter in {L-1, L, L+1, 2L, 2L+3} x every construct that consumes the limit (11 nesting elements uniform and in alternating pairs, reuse chains, recursive reuse; count/while/until/for loops, nested and retried loops; literal, copied and self-doubling variables) plus the flat-length dimension (m siblings of 20 element kinds, m up to 20L / 250 at the default limit, at three wrapping levels). State = (document, configuration); transition = one execution of the real transform with the depth probe. Two-sided verdict: Err <=> parameter > L, Ok => exact count of rendered marker elements (no truncation), depth counter back to 0. Non-trivial = parameter within 1 of the boundary or a flat-length case."));
     rep.set("also_later", json!("Rounds 4-5 added: limits configured between a waiting element and what it waits for, and inside a waiting element; nesting inside a passed-through <svg> and inside <defaults>."));
     rep.set("also", json!("Also: leaves which are shapes with text content, a separate <text>, CDATA, an explicit end tag, <box> content or a <title> child at every depth boundary; variable length counted in characters (multi-byte) and applied to for / loop variables; loops whose body waits for a forward reference."));
     let st = run_space(cases.len(), |i| check(&cases[i]));
